@@ -10,7 +10,7 @@ CONSTANTS
   MaxCommits = 3
   MaxAppends = 2
   MaxCrashes = 1
-  MaxCloses = 1
+  MaxCloses = 0
   PostCommits = 1
   Mutant = "none"
 INVARIANTS TypeOK Recoverable CleanReopen DurableRootsSound NothingNewerVisible WithinAlloc FailOnlyBeforeFirstCommit
